@@ -21,38 +21,43 @@ ARITH_RULE = ("programs generated from one PRNG (seed*1000+shard); an evaluation
 
 PROPS = {
     "C01": {
-        "extra_modules": ["C01W"],
-        "gens": [{"name": "C01", "quick": 3000, "thorough": 12000}, {"name": "muldiv", "harness": "kernharness", "quick": 1500, "thorough": 6000}],
+        "extra_modules": ["C01W", "CGen"],
+        "gens": [{"name": "mix", "quick": 900, "thorough": 4000}, {"name": "C01", "quick": 3000, "thorough": 12000}, {"name": "muldiv", "harness": "kernharness", "quick": 1500, "thorough": 6000}],
         "needs": ["apiharness"],
         "nontrivial": {"inexact", "range"},
         "rule": ARITH_RULE + "non-trivial = the exact result is not representable (rounding happens) or leaves the exponent range",
         "level": "proof",
+        "lean_targets": ["Proofs.GenWordOps", "Proofs.GenTables"],
     },
     "C02": {
-        "gens": [{"name": "C02", "quick": 2500, "thorough": 12000}, {"name": "setters", "quick": 800, "thorough": 5000},
+        "extra_modules": ["CGen"],
+        "gens": [{"name": "mix", "quick": 900, "thorough": 4000}, {"name": "C02", "quick": 2500, "thorough": 12000}, {"name": "setters", "quick": 800, "thorough": 5000},
                  {"name": "C08", "quick": 150, "thorough": 1000}, {"name": "C03", "quick": 500, "thorough": 3000}],
         "nontrivial": {"inexact", "range"},
         "rule": ARITH_RULE + "non-trivial = accuracy must be Below or Above",
         "level": "proof",
+        "lean_targets": ["Proofs.GenWordOps", "Proofs.GenTables"],
     },
     "C03": {
         "extra_modules": ["C03b"],
-        "gens": [{"name": "C03", "quick": 2500, "thorough": 10000}],
+        "gens": [{"name": "mix", "quick": 900, "thorough": 4000}, {"name": "C03", "quick": 2500, "thorough": 10000}],
         "nontrivial": {"inexact", "range", "fused-differs", "alias"},
         "rule": ARITH_RULE + "non-trivial = inexact, out of range, differs from Mul-then-Add, or aliased arguments",
         "level": "proof",
+        "lean_targets": ["Proofs.GenWordOps", "Proofs.GenTables"],
     },
     "C04": {
-        "extra_modules": ["C04b"],
-        "gens": [{"name": "C04", "quick": 600, "thorough": 6000},
+        "extra_modules": ["C04b", "CGen"],
+        "gens": [{"name": "mix", "quick": 900, "thorough": 4000}, {"name": "C04", "quick": 600, "thorough": 6000},
                  {"name": "divrec", "harness": "kernharness", "quick": 500, "thorough": 3000}],
         "needs": ["apiharness", "kernharness"],
         "nontrivial": {"special", "nan", "recursive"},
         "rule": ARITH_RULE + "the full class product {-Inf,-fin,-0,+0,+fin,+Inf}^k x 6 modes for Add Sub Mul Quo FMA is enumerated every run; 'no other panic on valid operands' also on the recursive division (divisors of 100 to 360 words, maximal partial remainders, all-nines divisors, exact multiples) through the hooks; non-trivial = at least one operand is a zero or an infinity, or a divisor of at least 100 words",
         "level": "proof",
+        "lean_targets": ["Proofs.GenWordOps", "Proofs.GenTables"],
     },
     "C06": {
-        "gens": [{"name": "muldiv", "harness": "kernharness", "quick": 2500, "thorough": 9000},
+        "gens": [{"name": "mix", "quick": 900, "thorough": 4000}, {"name": "muldiv", "harness": "kernharness", "quick": 2500, "thorough": 9000},
                  {"name": "dec", "harness": "kernharness", "quick": 1500, "thorough": 6000},
                  {"name": "divrec", "harness": "kernharness", "quick": 400, "thorough": 3000},
                  {"name": "C01", "quick": 1200, "thorough": 6000}],
@@ -67,9 +72,9 @@ PROPS = {
     },
     "C07": {
         "extra_modules": ["C07b", "C07c"],
-        "gens": [{"name": "ww", "harness": "kernharness", "quick": 3000, "thorough": 20000},
+        "gens": [{"name": "mix", "quick": 900, "thorough": 4000}, {"name": "ww", "harness": "kernharness", "quick": 3000, "thorough": 20000},
                  {"name": "vec", "harness": "kernharness", "quick": 4000, "thorough": 30000}],
-        "needs": ["kernharness"],
+        "needs": ["apiharness", "kernharness"],
         "nontrivial": {"unrolled", "shape=inplace", "shape=up", "shape=down", "ww", "len%4=1", "len%4=2", "len%4=3"},
         "rule": ("each of the 12 decimal kernels: assembly vs portable Go vs L0 Lean model (built on the REGENERATED word functions) vs the "
                  "mathematical definition; lengths 0..70 (quick) / 0..400 (thorough), all shift counts 0..18, edge words, separate / in-place / "
@@ -80,7 +85,7 @@ PROPS = {
     },
     "C18": {
         "known_ok": ["fma-product-exponent-out-of-range"],
-        "gens": [{"name": "shared", "harness": "kernharness", "quick": 40, "thorough": 300},
+        "gens": [{"name": "mix", "quick": 900, "thorough": 4000}, {"name": "shared", "harness": "kernharness", "quick": 40, "thorough": 300},
                  {"name": "decpoison", "harness": "kernharness", "quick": 1500, "thorough": 6000},
                  {"name": "C09", "quick": 150, "thorough": 1000},
                  {"name": "C14", "quick": 400, "thorough": 2500}, {"name": "C11", "quick": 600, "thorough": 3000}],
@@ -89,89 +94,105 @@ PROPS = {
         "rule": ("premises P1-P4 of the interleaving theorem tied deterministically: operand snapshots incl. backing arrays (API programs), pool "
                  "poisoning on get and put with an outstanding-set (dec operations above the thresholds), and k in {2,4,8,16} goroutines running "
                  "Mul Quo Add Sqrt FMA Cmp Text GobEncode Int on shared operands compared with the sequential result (support, not proof)"),
+        "lean_targets": ["Proofs.GenWordOps", "Proofs.GenTables"],
     },
     "C08": {
         "known_ok": ["fma-product-exponent-out-of-range"],
-        "gens": [{"name": "C08", "quick": 250, "thorough": 1500}, {"name": "C12", "quick": 1500, "thorough": 6000}, {"name": "C17", "quick": 600, "thorough": 3000},
+        "gens": [{"name": "mix", "quick": 900, "thorough": 4000}, {"name": "C08", "quick": 250, "thorough": 1500}, {"name": "C12", "quick": 1500, "thorough": 6000}, {"name": "C17", "quick": 600, "thorough": 3000},
                  {"name": "C20", "quick": 500, "thorough": 3000}, {"name": "setters", "quick": 800, "thorough": 3000}],
         "nontrivial": {"inexact", "range", "alias", "special"},
         "rule": ARITH_RULE + "every variable of every program state goes through the canonical-form monitor; non-trivial = step that rounds, leaves the range, aliases or involves a special value",
         "level": "proof",
+        "lean_targets": ["Proofs.GenWordOps", "Proofs.GenTables"],
     },
     "C09": {
-        "known_ok": ["fma-product-exponent-out-of-range"],
-        "gens": [{"name": "C09", "quick": 250, "thorough": 1500}, {"name": "setters", "quick": 600, "thorough": 4000}, {"name": "C20", "quick": 400, "thorough": 3000},
+        "known_ok": ["fma-product-exponent-out-of-range", "float64-double-rounding-near-tie", "float64-accuracy-near-representable", "float32-double-rounding-near-tie", "float32-accuracy-near-representable"],
+        "gens": [{"name": "mix", "quick": 900, "thorough": 4000}, {"name": "C09", "quick": 250, "thorough": 1500}, {"name": "setters", "quick": 600, "thorough": 4000}, {"name": "C20", "quick": 400, "thorough": 3000},
                  {"name": "C17", "quick": 800, "thorough": 4000}, {"name": "C05", "quick": 400, "thorough": 2000}, {"name": "C12", "quick": 500, "thorough": 3000},
-                 {"name": "C03", "quick": 400, "thorough": 2000}, {"name": "C14", "quick": 500, "thorough": 3000}],
+                 {"name": "C03", "quick": 400, "thorough": 2000}, {"name": "C14", "quick": 500, "thorough": 3000},
+                 {"name": "C15", "quick": 600, "thorough": 3000}],
         "nontrivial": {"inexact", "range", "alias", "special"},
         "rule": ARITH_RULE + "frame rule checked on Go's states and on the backing arrays up to capacity",
         "level": "proof",
+        "lean_targets": ["Proofs.GenWordOps", "Proofs.GenTables"],
     },
     "C10": {
-        "gens": [{"name": "C10", "quick": 250, "thorough": 1500}, {"name": "decpoison", "harness": "kernharness", "quick": 1200, "thorough": 5000},
-                 {"name": "C03", "quick": 600, "thorough": 3000}],
+        "gens": [{"name": "mix", "quick": 900, "thorough": 4000}, {"name": "C10", "quick": 250, "thorough": 1500}, {"name": "decpoison", "harness": "kernharness", "quick": 1200, "thorough": 5000},
+                 {"name": "C03", "quick": 600, "thorough": 3000}, {"name": "setters", "quick": 600, "thorough": 3000}],
         "needs": ["apiharness", "kernharness"],
         "known_ok": ["fma-product-exponent-out-of-range"],
         "nontrivial": {"alias", "karatsuba", "karatsubaSqr", "long"},
         "rule": ARITH_RULE + "every aliasing shape and stale receivers; dec operations with receivers nil/stale/aliasing an operand and poisoned pool buffers; non-trivial = two argument positions are the same variable, or a dec operation above a threshold",
         "level": "proof",
+        "lean_targets": ["Proofs.GenWordOps", "Proofs.GenTables"],
     },
     "C05": {
         "extra_modules": ["C05Lit"],
-        "gens": [{"name": "C05", "quick": 5000, "thorough": 20000}, {"name": "sqrtenum", "quick": 10000, "thorough": 10000, "single_shard": True}],
+        "gens": [{"name": "mix", "quick": 900, "thorough": 4000}, {"name": "C05", "quick": 5000, "thorough": 20000}, {"name": "sqrtenum", "quick": 10000, "thorough": 10000, "single_shard": True}],
         "nontrivial": {"inexact", "perfect-square", "special", "nan"},
         "rule": ARITH_RULE + "specification = Nat.sqrt of the scaled operand + sticky, rounded once; non-trivial = inexact root, perfect square, special operand or negative operand",
+        "lean_targets": ["Proofs.GenWordOps", "Proofs.GenTables"],
     },
     "C11": {
         "extra_modules": ["C11b"],
-        "gens": [{"name": "C11", "quick": 1500, "thorough": 8000}],
+        "gens": [{"name": "mix", "quick": 900, "thorough": 4000}, {"name": "C11", "quick": 1500, "thorough": 8000}],
         "nontrivial": {"shortest", "base10", "low-zero-word", "special"},
         "rule": ARITH_RULE + "Text(x, fmt, -1) for fmt in e E f g G p b and MarshalText, checked (a) to denote exactly x and to contain exactly MinPrec digits, then (b) parsed back into a receiver of precision >= MinPrec with base 10 or 0 and compared with x by Cmp and sign; values: dyadic, low zero words, specials, extreme exponents for exponent formats",
+        "lean_targets": ["Proofs.GenWordOps", "Proofs.GenTables"],
     },
     "C12": {
         "extra_modules": ["C12b"],
-        "gens": [{"name": "C12", "quick": 3000, "thorough": 15000}, {"name": "C11", "quick": 500, "thorough": 3000}],
+        "gens": [{"name": "mix", "quick": 900, "thorough": 4000}, {"name": "C12", "quick": 3000, "thorough": 15000}, {"name": "C11", "quick": 500, "thorough": 3000}],
         "nontrivial": {"rejected", "inexact", "underscore", "nondecimal-or-inf", "base10"},
         "rule": ARITH_RULE + "literals: well-formed base-10 (to thousands of digits, point anywhere, '_' in base 0, exponents at the int32 limits and beyond int64), base 2/8/16 with and without prefix and 'p' exponent, Inf spellings, mutated valid literals and random strings over the alphabet 0-9a-fA-FxXoOpP_.+-eEinfIN; compared three ways: Go Parse / Lean model of scan / math/big Float.Parse for acceptance and base; base-10 values against the exact literal value rounded once",
+        "lean_targets": ["Proofs.GenWordOps", "Proofs.GenTables"],
     },
     "C13": {
-        "gens": [{"name": "C13", "quick": 2500, "thorough": 12000}],
+        "gens": [{"name": "mix", "quick": 900, "thorough": 4000}, {"name": "C13", "quick": 2500, "thorough": 12000}],
         "nontrivial": {"inexact", "above-leading-digit", "flags", "width", "special"},
         "rule": ARITH_RULE + "Text/Append with explicit precision 0..24 and fmt.Sprintf with verbs e E f F g G v, flags + space 0 -, width and precision, six modes; oracles: the printed value must be x rounded once at the requested position (Lean Spec), and for values that are exactly float64 in ToNearestEven the string must equal strconv.FormatFloat / fmt.Sprintf of that float64",
+        "lean_targets": ["Proofs.GenWordOps", "Proofs.GenTables"],
     },
     "C14": {
         "extra_modules": ["C14b", "C14c"],
-        "gens": [{"name": "C14", "quick": 2500, "thorough": 12000}],
+        "gens": [{"name": "mix", "quick": 900, "thorough": 4000}, {"name": "C14", "quick": 2500, "thorough": 12000}],
         "nontrivial": {"inexact", "edge", "setint", "setrat", "newdec", "range"},
         "rule": ARITH_RULE + "conversions Int Int64 Uint64 Rat IsInt MinPrec Sign and setters SetInt SetInt64 SetUint64 SetRat NewDecimal; non-trivial = truncation happened, value within the 2^63/2^64/10^19 edge band, or a big-integer/rational setter",
+        "lean_targets": ["Proofs.GenWordOps", "Proofs.GenTables"],
     },
     "C15": {
-        "gens": [{"name": "C15", "quick": 2500, "thorough": 12000},
+        "gens": [{"name": "mix", "quick": 900, "thorough": 4000}, {"name": "C15", "quick": 2500, "thorough": 12000},
                  {"name": "floatmin", "quick": 3, "thorough": 14, "single_shard": True}],
         "nontrivial": {"inexact", "subnormal", "near-tie", "near-representable", "exact-fit", "setfloat", "float", "nan", "min-exponent"},
         "rule": ARITH_RULE + "SetFloat64 on float64 bit patterns (normals, subnormals, extremes, powers of ten and neighbours, NaN) compared with the model and with 'exact when it fits / within 1 ulp of the correctly rounded value'; Float64/Float32 on exact float64 values, exact midpoints and values perturbed in the 20th-320th digit, compared with the nearest binary value computed in Lean with rationals (ties to even, subnormals, overflow); SetFloat/Float with big.Float of 1-2000 bits within 64 ulps and exact when representable; 53-bit integers (the binade where SetFloat64 needs no scaling) at small precisions; SetFloat at the smallest big.Float exponents (2^-2147483648, two-step scaling) checked by integer cross-multiplication",
+        "lean_targets": ["Proofs.GenWordOps", "Proofs.GenTables"],
     },
     "C17": {
-        "gens": [{"name": "C17", "quick": 2500, "thorough": 12000}],
+        "gens": [{"name": "mix", "quick": 900, "thorough": 4000}, {"name": "C17", "quick": 2500, "thorough": 12000}],
         "nontrivial": {"rejected", "accepted", "into-nonzero-prec", "acc", "mode", "inexact"},
         "rule": ARITH_RULE + "GobEncode/GobDecode directly and through encoding/gob; hostile payloads: valid encodings truncated at a random length, one bit/byte flipped, extended, attribute byte replaced, a word >= 10^19, zero top word, precision below the digits sent, random bytes; non-trivial = a mutated payload (accepted or rejected), a non-default attribute, or decoding into a receiver with its own precision",
+        "lean_targets": ["Proofs.GenWordOps", "Proofs.GenTables"],
     },
     "C19": {
         "extra_modules": ["C19b"],
-        "gens": [{"name": "C19", "quick": 200, "thorough": 1200}],
+        "gens": [{"name": "mix", "quick": 900, "thorough": 4000}, {"name": "C19", "quick": 200, "thorough": 1200}],
         "nontrivial": {"nan", "latched", "had-error", "propagates", "inexact"},
         "rule": ARITH_RULE + "sequences of 3-40 context operations incl. NaN-producing operands, Err() calls and a nil operand (non-NaN panic); non-trivial = step that produces a NaN, runs while an error is latched, reads a recorded error, propagates a foreign panic, or rounds",
+        "lean_targets": ["Proofs.GenWordOps", "Proofs.GenTables"],
     },
     "C20": {
-        "extra_modules": ["C20b"],
-        "gens": [{"name": "C20", "quick": 1500, "thorough": 8000}],
+        "extra_modules": ["C20b", "CGen"],
+        "gens": [{"name": "mix", "quick": 900, "thorough": 4000}, {"name": "C20", "quick": 1500, "thorough": 8000}],
         "nontrivial": {"leading-zero-words", "leading-zero-digits", "prec0", "range", "inexact", "mantexp", "setmantexp"},
         "rule": ARITH_RULE + "SetBitsExp on arbitrary word slices (leading zero words/digits, all exponent classes incl. int64 extremes), MantExp/SetMantExp round trips and range edges",
+        "lean_targets": ["Proofs.GenWordOps", "Proofs.GenTables"],
     },
     "C16": {
-        "gens": [{"name": "C16", "quick": 2000, "thorough": 15000}],
+        "extra_modules": ["CGen"],
+        "gens": [{"name": "mix", "quick": 900, "thorough": 4000}, {"name": "C16", "quick": 2000, "thorough": 15000}],
         "nontrivial": {"ne", "difflen", "special"},
         "rule": ARITH_RULE + "non-trivial = operands differ, have different mantissa lengths at equal exponent, or are special",
         "level": "proof",
+        "lean_targets": ["Proofs.GenWordOps", "Proofs.GenTables"],
     },
 }
